@@ -105,13 +105,17 @@ func init() {
 		limit := 0
 		quiet := false
 		hung := false
+		// two registration sets of EQUAL size: A = program area + end of SRAM bank $70 (used normally), B = program area +
+		// the same offsets in bank $01 (never executed); B is installed for the run before each SRAM-end run, so the set
+		// changes between runs without changing its size
+		mapB := map[uint32]func(){}
 		s.CPU.OnPC = map[uint32]func(){}
 		for a := uint32(0x8000); a < 0x708000; a++ {
 			if a == 0x8400 {
 				a = 0x707FF0
 			}
 			a := a
-			s.CPU.OnPC[a] = func() {
+			cb := func() {
 				// a callback with a visible side effect: it must run equally often with and without a Logger
 				s.WRAM[0x1E00+int(a&0xFF)]++
 				steps++
@@ -122,7 +126,14 @@ func init() {
 					emit(map[string]interface{}{"k": "cb", "pc": int(a), "all": int(s.CPU.AllCycles)})
 				}
 			}
+			s.CPU.OnPC[a] = cb
+			if a >= 0x700000 {
+				mapB[a&0xFFFF|0x010000] = cb
+			} else {
+				mapB[a] = cb
+			}
 		}
+		mapA := s.CPU.OnPC
 		s.CPU.OnWDM = func(v byte) {
 			if !quiet {
 				emit(map[string]interface{}{"k": "wdm", "v": int(v)})
@@ -208,6 +219,11 @@ func init() {
 			for j := 0; j < pc+2; j++ {
 				prog = append(prog, [2]int{0x8000 + j, int(s.ROM[j])})
 			}
+			if i%8 == 6 || i == 0 {
+				s.CPU.OnPC = mapB
+			} else {
+				s.CPU.OnPC = mapA
+			}
 			sramEnd := i%8 == 7
 			if sramEnd {
 				// a short loop whose last instruction ends exactly at $70:7FFF; $70:8000+ is ROM-less (unmapped) in this System
@@ -232,6 +248,9 @@ func init() {
 				target = 0x9000 // never reached
 			default:
 				target = starts[r.Intn(len(starts))]
+			}
+			if r.Intn(12) == 0 {
+				target |= (1 + r.Intn(255)) << 24 // no program counter ever equals a target beyond 24 bits
 			}
 			budget := []int{0, 1, 2, 3, 5, 8, 13, 40, 100, 300, 700}[r.Intn(11)]
 			if r.Intn(4) == 0 {
